@@ -74,6 +74,12 @@ def strategy(tier):
     )
     sc = st.fixed_dictionaries({
         'reconnection': st.booleans(), 'coro': st.booleans(),
+        # life-cycle handlers of the application that fail (after they ran)
+        'life_faults': st.one_of(st.just([]), st.just([]), st.lists(
+            st.sampled_from(['connect_error:/', 'connect_error:/a',
+                             'connect_error:/b', 'disconnect:/',
+                             'disconnect:/a']),
+            min_size=1, max_size=2, unique=True)),
         'ops': st.lists(op, min_size=4, max_size=40 if big else 18)})
     return st.fixed_dictionaries({'family': st.just('client'), 'sc': sc})
 
@@ -108,14 +114,20 @@ def _run(sc, aio, h):
                 return r
         return None
 
+    life_faults = set(sc.get('life_faults') or ())
+
     def mk(kind):
         if coro:
             async def f(*args):
                 trace.append(('handler', kind, list(args)))
+                if kind in life_faults:
+                    raise RuntimeError('application handler fault')
                 return result(args)
         else:
             def f(*args):
                 trace.append(('handler', kind, list(args)))
+                if kind in life_faults:
+                    raise RuntimeError('application handler fault')
                 return result(args)
         return f
 
